@@ -835,6 +835,16 @@ def special_c07(res, tier, seed, workdir, stats):
 
 
 CORE_LEAN = os.path.join(hh.LEAN, "HH", "Generated", "PortableCore.lean")
+def recheck_generated(info, tier, module):
+    """thorough tier: the compiled generated module is replayed through the independent re-checker as well"""
+    if tier == "thorough":
+        try:
+            ok2, l2 = hh.leanchecker(module)
+            info["leanchecker"] = "ok" if ok2 else "FAILED: " + l2[-300:]
+        except Exception as e:  # noqa: BLE001
+            info["leanchecker"] = f"not executed: {e}"
+
+
 def advisory(fn):
     """a translation stage never decides a property: any failure to RUN it (tool crash, unexpected output) is recorded as
     'not executed' in the evidence and must not surface as an internal error of the check"""
@@ -907,6 +917,7 @@ def core_translation(res, tier, seed, workdir, stats, pid="C01", only=None):
         good = [t for t in thms if ax.get(t) is not None and not (ax[t] - hh.STD_AXIOMS)]
         info["theorems_checked"] = len(good)
         info["theorems_failed"] = [t for t in thms if t not in good][:20]
+        recheck_generated(info, tier, "HH.Generated.PortableCore")
         info["status"] = f"{len(translated)}/{len(st)} functions translated from the working tree; {len(good)}/{len(thms)} equality theorems (source translation = model, all inputs; remainder / update_remainder / unordered_load3: one theorem per buffer length, bytes universally quantified) checked by the kernel"
         if len(good) == len(thms):
             return
@@ -971,6 +982,7 @@ def simd_translation_for(which, pid, res, tier, seed, workdir, stats, escalate):
         ax, text = hh.audit_axioms("HH.Generated." + mod, thms)
         good = [t for t in thms if ax.get(t) is not None and not (ax[t] - hh.STD_AXIOMS)]
         info["theorems_checked"] = good
+        recheck_generated(info, tier, "HH.Generated." + mod)
         info["status"] = f"{len(translated)}/{len(st)} functions translated from the working tree; {len(good)}/{len(thms)} equality theorems (source translation = hand-written model, all register values) checked by the kernel"
         if len(good) == len(thms):
             return
@@ -1050,6 +1062,7 @@ def skeleton_translation(res, tier, seed, workdir, stats, pid="C05"):
         ax, text = hh.audit_axioms("HH.Generated.Skeleton", thms)
         good = [t for t in thms if ax.get(t) is not None and not (ax[t] - hh.STD_AXIOMS)]
         info["theorems_checked"] = len(good)
+        recheck_generated(info, tier, "HH.Generated.Skeleton")
         info["status"] = f"{len(translated)}/{len(st)} functions translated from the working tree; {len(good)}/{len(thms)} theorems (translated skeleton = appendG / finalizeCommon of the model, all states and byte strings) checked by the kernel"
         if len(good) == len(thms):
             return
@@ -1111,6 +1124,7 @@ def ladder_translation(res, tier, seed, workdir, stats):
         ax, text = hh.audit_axioms("HH.Generated.Ladder", thms)
         good = [t for t in thms if ax.get(t) is not None and not (ax[t] - hh.STD_AXIOMS)]
         info["theorems_checked"] = good
+        recheck_generated(info, tier, "HH.Generated.Ladder")
     info["status"] = f"{len(st) - len(skipped)}/{len(st)} items translated from the working tree; {len(good)}/{len(thms)} theorems (ladder = model for all Cfg x Cpu; literals / dispatch arms consistent with the model's tags; tag validity at every dispatch site) checked by the kernel"
     if ok and len(good) == len(thms) and not skipped:
         return
